@@ -148,6 +148,10 @@ def run_case(ctx, k, rng):
                 ok = ok and abs(float(vi) - v) <= tol
                 info["int"] = vi
                 ctx.note("int-form-cases")
+            if A.size and B.size and rng.random() < 0.5:
+                vx = call(ctx, vforms.with_extra_columns(rng, A), vforms.with_extra_columns(rng, B) if rng.random() < 0.7 else B)
+                ok = ok and abs(float(vx) - v) <= 1e-12 * scale_of(A, B)
+                info["extra_columns"] = vx
             if A.size and B.size:
                 (fa, na), (fb, nb) = vforms.relayout(rng, A), vforms.relayout(rng, B)
                 vf = call(ctx, fa, fb)
